@@ -63,6 +63,7 @@ type counter struct {
 	prev        int64
 	curr        int64
 	cachedCount CachedCount
+	reportMu    sync.Mutex
 }
 
 func newCounter(cachedCount CachedCount) *counter {
@@ -74,20 +75,22 @@ func (c *counter) Inc(v int64) {
 }
 
 func (c *counter) value() int64 {
-	// Claim the interval (prev, curr] with a compare-and-swap so that two
-	// report passes running at the same time never both deliver it. prev is
-	// read before curr: curr only catches up with later increments, so with
-	// non-negative increments the delta cannot be negative.
-	for {
-		prev := atomic.LoadInt64(&c.prev)
-		curr := atomic.LoadInt64(&c.curr)
-		if prev == curr {
-			return 0
-		}
-		if atomic.CompareAndSwapInt64(&c.prev, prev, curr) {
-			return curr - prev
-		}
+	// Report passes on one counter are serialised: the interval (prev, curr]
+	// is read and claimed in one critical section, so two passes running at
+	// the same time never deliver it twice, and a pass that starts after the
+	// last increment leaves prev equal to curr even when an older pass is
+	// still in flight (a lock-free claim cannot guarantee that once
+	// increments may be negative). Inc never takes the lock.
+	c.reportMu.Lock()
+	defer c.reportMu.Unlock()
+
+	curr := atomic.LoadInt64(&c.curr)
+	prev := atomic.LoadInt64(&c.prev)
+	if prev == curr {
+		return 0
 	}
+	atomic.StoreInt64(&c.prev, curr)
+	return curr - prev
 }
 
 func (c *counter) report(name string, tags map[string]string, r StatsReporter) {
